@@ -24,7 +24,20 @@ def _real(x):
         return n
     if k == "other":
         return "x"
+    attr = {"gshort": "address", "dshort": "address", "ggroup": "group", "dgroup": "group"}.get(k)
+    if attr and MOVED[0]:
+        # the same address, reached by changing the public number of an object built with another one
+        o = make_obj([k, (n + 5) % 16])
+        try:
+            setattr(o, attr, n)
+            if o == make_obj(x):
+                return o
+        except Exception:
+            pass
     return make_obj(x)
+
+
+MOVED = [0]
 
 
 def _p(p, gear=True):
@@ -105,7 +118,8 @@ def _ctor_job(job):
     tbl, rowix, row, q, dest, inst, pvname = job
     cls = CLASSES[q]
     cells = []
-    for p in cmdrec.PVALS[pvname][1]:
+    for k, p in enumerate(cmdrec.PVALS[pvname][1]):
+        MOVED[0] = (k + rowix) % 2
         try:
             obj = construct(tbl, row, cls, dest, inst, p)
         except Exception:
@@ -232,6 +246,11 @@ def build(tier, seed):
         i6 = [["number", 0], ["group", 31], ["type", 1], ["fnumber", 5], ["broadcast", 0], ["fdevice", 0]]
         pairs = [(d, i) for d in d8 for i in insts_all] + [(d, i) for d in DEV for i in i6]
     pairs += [(d, ["number", 3]) for d in ill_dev] + [(["dshort", 1], ["other", 0])]
+    # the reserved instance bytes named explicitly, and values that are no byte at all
+    rsv = [b for b in range(256) if (b >> 5) in (2, 7) and b < 252]
+    pairs += [(["dshort", 5], ["reserved", b]) for b in (rsv if tier == "thorough" else rsv[::7] + [rsv[-1]])]
+    pairs += [(d, ["reserved", b]) for d in (["dshort", 5], ["dbcast", 0])
+              for b in (-1, -2, -255, -256, 256, 257, 0x145, 0x1FF, 0xFFFF, 1 << 20, 5, 255)]
     for ix, row in enumerate(t["inst"], 1):
         q = "%s.%s" % (row[0], row[1])
         if q not in CLASSES:
